@@ -12,14 +12,14 @@ import (
 type Rng struct{ s uint64 }
 
 func NewRng(seed uint64) *Rng { return &Rng{s: seed*0x9e3779b97f4a7c15 + 0x1234567} }
-func (r *Rng) U64() uint64   { return splitmix(&r.s) }
+func (r *Rng) U64() uint64    { return splitmix(&r.s) }
 func (r *Rng) Intn(n int) int {
 	if n <= 0 {
 		return 0
 	}
 	return int(r.U64() % uint64(n))
 }
-func (r *Rng) Range(lo, hi int) int { return lo + r.Intn(hi-lo+1) }
+func (r *Rng) Range(lo, hi int) int  { return lo + r.Intn(hi-lo+1) }
 func (r *Rng) Chance(p float64) bool { return float64(r.U64()%1000000)/1000000.0 < p }
 func (r *Rng) Pick(ws []int) int {
 	t := 0
@@ -41,35 +41,35 @@ func (r *Rng) Pick(ws []int) int {
 
 // Profile steers the generator for one property / tier.
 type Profile struct {
-	Prop     string
-	Tier     string
-	Stmts    [2]int // number of statements in the main timeline
-	Tables   [2]int
-	DBs      [2]int
-	MaxRows  int // rows per INSERT
+	Prop    string
+	Tier    string
+	Stmts   [2]int // number of statements in the main timeline
+	Tables  [2]int
+	DBs     [2]int
+	MaxRows int // rows per INSERT
 	// weights: create, insert, update, delete, select, restart, failing
 	WCreate, WInsert, WUpdate, WDelete, WSelect, WRestart, WFail int
-	WUseSwitch, WCreateDB, WShowDB, WBadDB int // multi-database statements (C17)
-	WRaw       int // type-confused / NULL-touching raw SQL (C18)
-	RawMutations bool // raw statements may change the database (model stops following)
-	Values   string // "plain", "mixed", "extreme"
-	FailAnyK bool   // failing multi-row statements may fail at row k>0 (C14)
-	CacheCaps []int // candidates; 0 = default
-	TickModes []string
-	StallP   float64 // probability that a statement gets an in-statement stall directive
+	WUseSwitch, WCreateDB, WShowDB, WBadDB                       int    // multi-database statements (C17)
+	WRaw                                                         int    // type-confused / NULL-touching raw SQL (C18)
+	RawMutations                                                 bool   // raw statements may change the database (model stops following)
+	Values                                                       string // "plain", "mixed", "extreme"
+	FailAnyK                                                     bool   // failing multi-row statements may fail at row k>0 (C14)
+	CacheCaps                                                    []int  // candidates; 0 = default
+	TickModes                                                    []string
+	StallP                                                       float64 // probability that a statement gets an in-statement stall directive
 	// images
-	Boundary   int // number of boundary images per run
-	WalStmts   int // number of statements whose every log event gets an image
-	FlushImgs  int // number of flush images
-	ContStmts  [2]int
-	NestP      float64 // probability that a continuation takes nested images
-	MaxDepth   int
-	FinalClose float64
-	CheckEvery int
-	TreeEvery  int
-	ForceFlush bool
-	FlushMargins []int
-	EnumFlush  bool // thorough: enumerate every subset of small flushes
+	Boundary      int // number of boundary images per run
+	WalStmts      int // number of statements whose every log event gets an image
+	FlushImgs     int // number of flush images
+	ContStmts     [2]int
+	NestP         float64 // probability that a continuation takes nested images
+	MaxDepth      int
+	FinalClose    float64
+	CheckEvery    int
+	TreeEvery     int
+	ForceFlush    bool
+	FlushMargins  []int
+	EnumFlush     bool // thorough: enumerate every subset of small flushes
 	BigInsertOnly bool // growth runs: mostly inserts into one table
 	WideInserts   bool // every INSERT carries MaxRows rows
 }
@@ -633,22 +633,38 @@ func (g *gen) stmtRaw(db *MDB, t *MTable) Stmt {
 		func() string { return fmt.Sprintf("SELECT count(%s) FROM %s", col(), t.Name) },
 		func() string { return fmt.Sprintf("SELECT %s, avg(%s) FROM %s GROUP BY %s", "k", col(), t.Name, "k") },
 		func() string { return fmt.Sprintf("SELECT %s, count(*) FROM %s GROUP BY %s", col(), t.Name, col()) },
-		func() string { return fmt.Sprintf("SELECT * FROM %s ORDER BY %s %s", t.Name, col(), []string{"ASC", "DESC"}[g.r.Intn(2)]) },
+		func() string {
+			return fmt.Sprintf("SELECT * FROM %s ORDER BY %s %s", t.Name, col(), []string{"ASC", "DESC"}[g.r.Intn(2)])
+		},
 		func() string { return fmt.Sprintf("SELECT * FROM %s ORDER BY %s, %s", t.Name, col(), col()) },
 		func() string { return fmt.Sprintf("SELECT * FROM %s WHERE %s %s %s", t.Name, col(), op(), lit()) },
 		func() string { return fmt.Sprintf("SELECT * FROM %s WHERE %s %s %s", t.Name, col(), op(), col()) },
-		func() string { return fmt.Sprintf("SELECT * FROM %s WHERE %s %s %s AND %s %s %s", t.Name, col(), op(), lit(), col(), op(), lit()) },
-		func() string { return fmt.Sprintf("SELECT * FROM %s WHERE %s %s %s OR %s %s %s", t.Name, col(), op(), lit(), col(), op(), lit()) },
+		func() string {
+			return fmt.Sprintf("SELECT * FROM %s WHERE %s %s %s AND %s %s %s", t.Name, col(), op(), lit(), col(), op(), lit())
+		},
+		func() string {
+			return fmt.Sprintf("SELECT * FROM %s WHERE %s %s %s OR %s %s %s", t.Name, col(), op(), lit(), col(), op(), lit())
+		},
 		func() string { return fmt.Sprintf("SELECT nosuchcol FROM %s", t.Name) },
 		func() string { return fmt.Sprintf("SELECT %s, %s FROM %s", col(), col(), t.Name) },
 		func() string { return fmt.Sprintf("SELECT * FROM %s WHERE nosuch = 1", t.Name) },
-		func() string { return fmt.Sprintf("SELECT a.%s, b.%s FROM %s a JOIN %s b ON a.k = b.k", col(), "k", t.Name, other.Name) },
-		func() string { return fmt.Sprintf("SELECT * FROM %s a LEFT JOIN %s b ON a.%s = b.k", t.Name, other.Name, col()) },
+		func() string {
+			return fmt.Sprintf("SELECT a.%s, b.%s FROM %s a JOIN %s b ON a.k = b.k", col(), "k", t.Name, other.Name)
+		},
+		func() string {
+			return fmt.Sprintf("SELECT * FROM %s a LEFT JOIN %s b ON a.%s = b.k", t.Name, other.Name, col())
+		},
 		func() string { return fmt.Sprintf("SELECT k FROM %s a JOIN %s b ON a.k = b.k", t.Name, other.Name) },
-		func() string { return fmt.Sprintf("SELECT count(*), avg(a.%s) FROM %s a RIGHT JOIN %s b ON a.k = b.k", col(), t.Name, other.Name) },
+		func() string {
+			return fmt.Sprintf("SELECT count(*), avg(a.%s) FROM %s a RIGHT JOIN %s b ON a.k = b.k", col(), t.Name, other.Name)
+		},
 		func() string { return fmt.Sprintf("SELECT * FROM %s a JOIN %s b ON a.%s", t.Name, other.Name, col()) },
-		func() string { return fmt.Sprintf("SELECT * FROM %s LIMIT %d OFFSET %d", t.Name, g.r.Intn(5), g.r.Intn(5)) },
-		func() string { return fmt.Sprintf("UPDATE %s SET %s = %s WHERE %s %s %s", t.Name, col(), lit(), col(), op(), lit()) },
+		func() string {
+			return fmt.Sprintf("SELECT * FROM %s LIMIT %d OFFSET %d", t.Name, g.r.Intn(5), g.r.Intn(5))
+		},
+		func() string {
+			return fmt.Sprintf("UPDATE %s SET %s = %s WHERE %s %s %s", t.Name, col(), lit(), col(), op(), lit())
+		},
 		func() string { return fmt.Sprintf("UPDATE %s SET nosuch = 1", t.Name) },
 		func() string { return fmt.Sprintf("UPDATE %s SET %s = %s", t.Name, col(), col()) },
 		func() string { return fmt.Sprintf("DELETE FROM %s WHERE %s %s %s", t.Name, col(), op(), lit()) },
@@ -659,32 +675,59 @@ func (g *gen) stmtRaw(db *MDB, t *MTable) Stmt {
 		func() string { return fmt.Sprintf("SELECT avg(%s), count(*) FROM %s WHERE k < 0", col(), t.Name) },
 		func() string { return "CREATE TABLE " + t.Name + " (k INT)" },
 		func() string { return "CREATE TABLE x_" + t.Name + " ()" },
-		func() string { return fmt.Sprintf("SELECT %s AS z, count(*) FROM %s GROUP BY z ORDER BY z", col(), t.Name) },
+		func() string {
+			return fmt.Sprintf("SELECT %s AS z, count(*) FROM %s GROUP BY z ORDER BY z", col(), t.Name)
+		},
 		func() string { return fmt.Sprintf("SELECT * FROM %s a JOIN %s b ON a.k = b.k", t.Name, t.Name) },
-		func() string { return fmt.Sprintf("SELECT a.%s, b.%s FROM %s a JOIN %s b ON a.%s = b.%s", col(), col(), t.Name, t.Name, col(), col()) },
+		func() string {
+			return fmt.Sprintf("SELECT a.%s, b.%s FROM %s a JOIN %s b ON a.%s = b.%s", col(), col(), t.Name, t.Name, col(), col())
+		},
 		func() string { return fmt.Sprintf("SELECT * FROM %s WHERE %s", t.Name, col()) },
 		func() string { return fmt.Sprintf("SELECT * FROM %s WHERE %s", t.Name, lit()) },
 		func() string { return fmt.Sprintf("SELECT * FROM %s WHERE %s AND %s", t.Name, col(), col()) },
 		func() string { return fmt.Sprintf("SELECT * FROM %s WHERE %s OR %s = %s", t.Name, col(), col(), lit()) },
-		func() string { return fmt.Sprintf("SELECT * FROM %s a LEFT JOIN %s b ON a.k = b.k WHERE b.%s %s %s", t.Name, other.Name, other.Cols[g.r.Intn(len(other.Cols))].Name, op(), lit()) },
-		func() string { c := other.Cols[g.r.Intn(len(other.Cols))].Name; return fmt.Sprintf("SELECT b.%s, count(*) FROM %s a LEFT JOIN %s b ON a.k = b.k GROUP BY b.%s", c, t.Name, other.Name, c) },
-		func() string { c := other.Cols[g.r.Intn(len(other.Cols))].Name; return fmt.Sprintf("SELECT avg(b.%s) FROM %s a LEFT JOIN %s b ON a.k = b.k", c, t.Name, other.Name) },
-		func() string { c := other.Cols[g.r.Intn(len(other.Cols))].Name; return fmt.Sprintf("SELECT count(b.%s), avg(a.k) FROM %s a RIGHT JOIN %s b ON a.%s = b.k", c, t.Name, other.Name, col()) },
-		func() string { return fmt.Sprintf("SELECT * FROM %s a LEFT JOIN %s b ON a.k = b.k ORDER BY b.k DESC", t.Name, other.Name) },
-		func() string { return fmt.Sprintf("SELECT * FROM %s a JOIN %s b ON a.k = b.k JOIN %s c ON c.k = b.k", t.Name, other.Name, t.Name) },
+		func() string {
+			return fmt.Sprintf("SELECT * FROM %s a LEFT JOIN %s b ON a.k = b.k WHERE b.%s %s %s", t.Name, other.Name, other.Cols[g.r.Intn(len(other.Cols))].Name, op(), lit())
+		},
+		func() string {
+			c := other.Cols[g.r.Intn(len(other.Cols))].Name
+			return fmt.Sprintf("SELECT b.%s, count(*) FROM %s a LEFT JOIN %s b ON a.k = b.k GROUP BY b.%s", c, t.Name, other.Name, c)
+		},
+		func() string {
+			c := other.Cols[g.r.Intn(len(other.Cols))].Name
+			return fmt.Sprintf("SELECT avg(b.%s) FROM %s a LEFT JOIN %s b ON a.k = b.k", c, t.Name, other.Name)
+		},
+		func() string {
+			c := other.Cols[g.r.Intn(len(other.Cols))].Name
+			return fmt.Sprintf("SELECT count(b.%s), avg(a.k) FROM %s a RIGHT JOIN %s b ON a.%s = b.k", c, t.Name, other.Name, col())
+		},
+		func() string {
+			return fmt.Sprintf("SELECT * FROM %s a LEFT JOIN %s b ON a.k = b.k ORDER BY b.k DESC", t.Name, other.Name)
+		},
+		func() string {
+			return fmt.Sprintf("SELECT * FROM %s a JOIN %s b ON a.k = b.k JOIN %s c ON c.k = b.k", t.Name, other.Name, t.Name)
+		},
 		func() string { return fmt.Sprintf("SELECT * FROM %s a JOIN %s b ON 1", t.Name, other.Name) },
 		func() string { return fmt.Sprintf("SELECT * FROM %s LIMIT 0", t.Name) },
 		func() string { return fmt.Sprintf("SELECT * FROM %s OFFSET %d", t.Name, g.r.Intn(3000)) },
-		func() string { return fmt.Sprintf("SELECT * FROM %s ORDER BY %s LIMIT %d OFFSET %d", t.Name, col(), g.r.Intn(4), g.r.Intn(40)) },
+		func() string {
+			return fmt.Sprintf("SELECT * FROM %s ORDER BY %s LIMIT %d OFFSET %d", t.Name, col(), g.r.Intn(4), g.r.Intn(40))
+		},
 		func() string { return fmt.Sprintf("SELECT count(*), %s FROM %s", col(), t.Name) },
 		func() string { return fmt.Sprintf("SELECT %s FROM %s GROUP BY %s", col(), t.Name, col()) },
 		func() string { return fmt.Sprintf("SELECT count(nosuch) FROM %s", t.Name) },
-		func() string { return fmt.Sprintf("SELECT avg(%s), avg(%s), count(%s) FROM %s GROUP BY %s", col(), col(), col(), t.Name, col()) },
+		func() string {
+			return fmt.Sprintf("SELECT avg(%s), avg(%s), count(%s) FROM %s GROUP BY %s", col(), col(), col(), t.Name, col())
+		},
 		func() string { return fmt.Sprintf("SELECT * FROM %s ORDER BY nosuch", t.Name) },
-		func() string { return fmt.Sprintf("SELECT %s, %s FROM %s ORDER BY %s DESC, %s", col(), col(), t.Name, col(), col()) },
+		func() string {
+			return fmt.Sprintf("SELECT %s, %s FROM %s ORDER BY %s DESC, %s", col(), col(), t.Name, col(), col())
+		},
 		func() string { return fmt.Sprintf("DELETE FROM %s WHERE nosuch = 1", t.Name) },
 		func() string { return fmt.Sprintf("DELETE FROM %s WHERE %s %s %s", t.Name, col(), op(), col()) },
-		func() string { return fmt.Sprintf("UPDATE %s SET %s = %s WHERE nosuch %s %s", t.Name, col(), lit(), op(), lit()) },
+		func() string {
+			return fmt.Sprintf("UPDATE %s SET %s = %s WHERE nosuch %s %s", t.Name, col(), lit(), op(), lit())
+		},
 		func() string { return fmt.Sprintf("SELECT %s.%s FROM %s", other.Name, col(), t.Name) },
 		func() string { return fmt.Sprintf("SELECT x.%s FROM %s", col(), t.Name) },
 		func() string { return fmt.Sprintf("SELECT * FROM %s, %s", t.Name, other.Name) },
@@ -693,6 +736,21 @@ func (g *gen) stmtRaw(db *MDB, t *MTable) Stmt {
 		q := tmpl[g.r.Intn(len(tmpl))]()
 		if g.r.Chance(0.45) {
 			q = g.composeSelect(db, t, other)
+		}
+		// nested-loop joins over grown tables run for minutes without
+		// touching a single seam: keep the pair count bounded
+		if nj := strings.Count(q, "JOIN"); nj > 0 {
+			big := len(t.Rows)
+			if len(other.Rows) > big {
+				big = len(other.Rows)
+			}
+			pairs := 1
+			for i := 0; i <= nj && pairs <= 60000; i++ {
+				pairs *= big + 1
+			}
+			if pairs > 60000 {
+				continue
+			}
 		}
 		if g.pf.RawMutations || isSelectText(q) {
 			return Stmt{Kind: KRawSQL, SQL: q}
